@@ -8,6 +8,7 @@ import Driver.PoolMulti
 import Driver.Rewards
 import Driver.Consensus
 import Driver.Codec
+import Driver.CodecJson
 import Driver.Wallet
 import Driver.Genesis
 import Driver.Verify
@@ -52,6 +53,7 @@ def registry : List Obj := [
   pureObj pureMverify,
   pureObj pureAddMomentum,
   pureObj pureCodec,
+  pureObj pureCodecJson,
   pureObj pureWallet,
   walletSeqObj,
   pureObj pureGenesis,
